@@ -401,6 +401,14 @@ func runC01(c *Ctx) {
 		writes := map[ssa.Value]map[string][]site{}
 		for _, fn := range append([]*ssa.Function{lf}, lf.AnonFuncs...) {
 			Instrs(fn, false, func(in ssa.Instruction) {
+				if mu, ok := in.(*ssa.MapUpdate); ok {
+					r, p := path(mu.Map)
+					if writes[r] == nil {
+						writes[r] = map[string][]site{}
+					}
+					writes[r][p] = append(writes[r][p], site{fn, mu})
+					return
+				}
 				st, ok := in.(*ssa.Store)
 				if !ok {
 					return
@@ -422,8 +430,8 @@ func runC01(c *Ctx) {
 		nGuards := 0
 		for _, b := range dfs.Blocks {
 			iff, ok := b.Instrs[len(b.Instrs)-1].(*ssa.If)
-			if !ok || !b.Dominates(succsLoad.Block()) && b != succsLoad.Block() {
-				continue
+			if !ok || !b.Dominates(succsLoad.Block()) || b == succsLoad.Block() {
+				continue // only exits taken before the successors are looked at
 			}
 			early := false
 			for _, sc := range b.Succs {
@@ -440,6 +448,21 @@ func runC01(c *Ctx) {
 			private, what := true, ""
 			reads := 0
 			for x := range BackSlice(iff.Cond, SliceOpts{NoMemory: true}) {
+				if lk, ok := x.(*ssa.Lookup); ok {
+					if _, isMap := lk.X.Type().Underlying().(*types.Map); isMap {
+						r, p := path(lk.X)
+						if _, isCell := r.(*ssa.Alloc); isCell {
+							reads++
+							for _, w := range writes[r][p] {
+								if w.fn != dfs {
+									private = false
+									what = "it reads a map that is also written at " + c.PosStr(w.pos.Pos()) + " (outside the traversal)"
+								}
+							}
+						}
+					}
+					continue
+				}
 				u, ok := x.(*ssa.UnOp)
 				if !ok || u.Op.String() != "*" {
 					continue
